@@ -20,7 +20,7 @@ func c02case(c GCase, a *run.Acc) {
 	}
 	g := c.G
 	a.Count("cases", 1)
-	env := gram.NewEnv(c.In)
+	env := gram.NewEnvAt(c.In, c.Before())
 	gd := gram.NewGuard(env.Base)
 	gd.MaxEvents, gd.MaxCalls = 150000, 150000
 	b := gram.Build(g, &gram.Hooks{Inside: gd.Inside, Outside: gd.Outside, MemoExpr: c.MemoExpr,
